@@ -50,10 +50,15 @@ def obj_const(x):
 OBJ = {'plain': obj, 'hyper': obj_hyper, 'singular': obj_singular, 'const': obj_const}
 
 
-def run(cls, mod, hp, n_agents, n_vars, n_iter, seed, kind='search', box=(-5.0, 5.0), objective='plain'):
+def run(cls, mod, hp, n_agents, n_vars, n_iter, seed, kind='search', box=(-5.0, 5.0), objective='plain', late_seed=None):
     np.random.seed(seed)
     opt, space = build(cls, mod, hp, n_agents, n_vars, n_iter, kind, tuple(box))
-    h = Opytimizer(space=space, optimizer=opt, function=Function(pointer=OBJ[objective])).start()
+    task = Opytimizer(space=space, optimizer=opt, function=Function(pointer=OBJ[objective]))
+    if late_seed is not None:
+        # the generator is seeded again between assembling the task and starting it: the run draws from the generator as it is WHEN it
+        # draws (equal late seeds: equal runs; different late seeds: different runs)
+        np.random.seed(late_seed)
+    h = task.start()
     # every public data attribute, whether it lives on the instance or on the class
     d = {k: getattr(h, k) for k in sorted(set(dir(h))) if not k.startswith('_') and not callable(getattr(h, k)) and k not in ('time', 'best_tree')}
     blob = json.dumps(d, default=lambda o: o.tolist() if hasattr(o, 'tolist') else repr(type(o)), sort_keys=True)
@@ -98,7 +103,7 @@ def main():
             pass
     try:
         dg = run(p['cls'], p['mod'], p.get('hp'), p['n_agents'], p['n_vars'], p['n_iter'], p['seed'],
-                 p.get('kind', 'search'), p.get('box', (-5.0, 5.0)), p.get('objective', 'plain'))
+                 p.get('kind', 'search'), p.get('box', (-5.0, 5.0)), p.get('objective', 'plain'), p.get('late_seed'))
     except Exception as ex:  # noqa: BLE001
         dg = 'EXC:' + type(ex).__name__
     hlib.emit({'digest': dg})
